@@ -1,15 +1,28 @@
 """C18 configuration for bin/check."""
 
 CFG = {
-    "tier_a": ["UFSeq", "MergeArms", "BridgeFns"],
-    "model_targets": ["Sched/Scheduler.vo"],
+    "tier_a": ["UFSeq", "MergeArms", "BridgeFns",
+               "MatchesFns.new", "MatchesFns.match_size", "MatchesFns.tuple_len", "MatchesFns.get_match",
+               "MatchesFns.choose", "MatchesFns.choose_all", "MatchesFns.instantiate",
+               "MatchesFns.sched_step_order", "MatchesFns.sched_residual_recanon",
+               "MatchesFns.sched_cache_key_fields", "MatchesFns.sched_query_iff_should_seek"],
+    "model_targets": ["Sched/Scheduler.vo", "Sched/MatchesPrelude.vo"],
     "proof_targets": ["Props/C18.vo"],
     "harness": [{"bin": "h_sched2", "prefix": "cases_sched2"}],
     "trusted": [
-        "hand-written model coq/Sched/Scheduler.v part A (Matches::instantiate: choose / choose_all / swap-remove loop of "
-        "src/scheduler.rs:114-166; `sort_unstable(); dedup()` modelled as the increasing enumeration of the chosen indices) tied to "
-        "the code by h_sched2: the exact ORDER of the residual tuples the engine offers at the rule's next filter_matches call is "
-        "compared with the model on every recorded call (kernel-evaluated CInst cases)",
+        "model coq/Sched/Scheduler.v part A (Matches::instantiate over a list of tuples) is now tied to the code TWICE: (1) Tier A: "
+        "translator/src/x_matches.rs regenerates gen/MatchesFns.v from `impl Matches` of src/scheduler.rs on every run (new, "
+        "match_size, tuple_len, get_match, choose, choose_all, instantiate with its four loops; statement-by-statement, checked usize "
+        "subtraction/division, panicking slices/swaps/chunks) and c18_src_instantiate_refines proves the regenerated function computes "
+        "the hand model on concat of the tuples; (2) h_sched2 still compares the exact ORDER of the residual tuples the engine offers "
+        "at the rule's next filter_matches call with the model (kernel-evaluated CInst cases)",
+        "std operations used by the regenerated code are given meaning by the hand-written coq/Sched/MatchesPrelude.v: "
+        "sort_unstable on Vec<usize> = insertion sort (on integers every sort yields THE sorted permutation), dedup = removal of "
+        "consecutive repeats, chunks / swap / truncate / slicing as documented by std; `+`/`*` on usize are unbounded (all products "
+        "reached are bounded by a Vec length); Value and ResolvedVar are opaque N; table_action.insert is an append to an effect log",
+        "expression-level facts of step_rules_with_scheduler (phase order, residual re-canonicalised by get_canon_repr before "
+        "Matches::new, side cell receives instantiate's result, cache keyed by (ruleset, rule name), query rules gated by should_seek) "
+        "are recognised syntactically by x_matches.rs (fail closed) and used by c18_src_step_structure",
         "hand-written model coq/Sched/Scheduler.v part B (step_rules_with_scheduler over the shared Egg core coq/Egg/Model.v + "
         "Egg/Rules.v, itself tied to the engine by h_egg): scheduler = arbitrary state machine, residual matches = raw value tuples "
         "outside the database, one tuple per body match; tied by h_sched2: Rules.match_body on the dumped tables vs the tuples the "
@@ -26,7 +39,12 @@ CFG = {
         "harness reads the head variables of a match through Match::get_value; variables renamed by core-rule canonicalisation "
         "((= v0 (F v1)) renames v0 to a generated @F<n>) are located by probing names",
     ],
-    "theorem_backed": "c18_instantiate_perm/_dups/_all: instantiate never panics on in-range choices, inserts exactly the chosen rows, keeps a "
+    "theorem_backed": "c18_src_instantiate_refines (regenerated instantiate = hand model on concat, both branches), "
+                      "c18_src_instantiate_perm/_all (the hand theorems re-stated over the regenerated function), c18_src_new_spec, "
+                      "c18_src_instantiate_no_panic (every vector accepted by Matches::new + every in-range choice list: Ok, and the residual "
+                      "is accepted by Matches::new again), c18_src_match_size, c18_src_get_match, c18_src_choose_spec, "
+                      "c18_src_step_structure (regenerated control-structure facts; the model's `offered` is their instance); "
+                      "c18_instantiate_perm/_dups/_all: instantiate never panics on in-range choices, inserts exactly the chosen rows, keeps a "
                       "permutation of the unchosen ones, duplicates/order of choices irrelevant; c18_offered_all: for every scheduler, "
                       "program and state each rule's filter_matches gets residual ++ (one tuple per match of the body iff a search was "
                       "requested); c18_offered_not_subsumed: match_body is invariant under deleting all subsumed rows; c18_no_loss: "
